@@ -311,8 +311,75 @@ def check_err(eng, run):
     run.ob("C05.err", fn.short, ok, escaping=sorted(toks))
 
 
+def check_drop(eng, run):
+    """a datagram taken out of a queue / transport is handed on: never dropped by a raising call, a re-binding or an exit"""
+    from sa.analyses.hold import MARK, RET, HoldAnalysis
+    from sa.flow import Interp
+
+    n = 0
+    mods = ("easynetwork.lowlevel.api_async.backend._asyncio.datagram", "easynetwork.lowlevel.api_async.backend._trio.datagram", "easynetwork.lowlevel.api_sync.endpoints.datagram",
+            "easynetwork.lowlevel.api_async.endpoints.datagram", "easynetwork.lowlevel.api_async.servers.datagram")
+    for fn in eng.db.all_functions():
+        if isinstance(fn.node, ast.Lambda) or not fn.module.name.startswith(mods):
+            continue
+        probe = HoldAnalysis(eng)
+        probe.fn = fn
+        if not any(isinstance(x, ast.Call) and probe.is_source_call(x) for x in own_nodes(fn.node)):
+            continue
+        an = HoldAnalysis(eng)
+        out = Interp(an, fn).run()
+        if not an.sources:
+            continue
+        n += 1
+        bad = [(node, kind, var) for node, kind, var in an.problems if kind in ("raiser", "killed")]
+        exits = []
+        for kind, tok, fmap in [("return", None, out.ret)] + [("raise", t, m) for t, m in out.exc.items()]:
+            for fact, tr in fmap.items():
+                held = set(fact) - {RET}
+                if held and MARK not in held:
+                    exits.append((held, tr))
+        seen = set()
+        for node, kind, var in bad:
+            st = _stmt_at(fn, node.lineno)
+            if norm_stmt(st) in seen:
+                continue
+            seen.add(norm_stmt(st))
+            what = "a call that can raise runs" if kind == "raiser" else "the holder is re-bound / deleted"
+            run.finding("C05.drop", fn, st, f"{what} while `{var}` holds a received datagram that has not been handed on: that datagram is lost (another one's error / data takes its place)")
+        for held, tr in exits[:1]:
+            if not bad:
+                run.finding("C05.drop", fn, _stmt_at(fn, tr[-1]) if tr else fn.node, f"exit while `{','.join(sorted(held))}` still holds a received datagram", tr)
+        run.ob("C05.drop", fn.module.name.split("easynetwork.")[1].split(".")[-2] + "." + fn.short, not bad and not exits, sources=len(an.sources))
+    run.floor("C05.drop datagram functions with a source", n, 5)
+
+
+def check_sep(eng, run):
+    """one-shot (de)serialization removes / tests the separator only as a suffix: strip-family calls treat their
+    argument as a *set of bytes* and eat partial or reordered separators that belong to the payload"""
+    n = 0
+    for ci in eng.db.classes.values():
+        if not ci.module.name.startswith("easynetwork.serializers"):
+            continue
+        for fn in ci.methods.values():
+            if isinstance(fn.node, ast.Lambda):
+                continue
+            for c in own_nodes(fn.node):
+                if isinstance(c, ast.Call) and isinstance(c.func, ast.Attribute) and c.func.attr in ("rstrip", "lstrip", "strip") and c.args:
+                    a = ast.unparse(c.args[0])
+                    if "separator" in a.lower():
+                        n += 1
+                        run.finding("C05.sep", fn, _stmt_at(fn, c.lineno), f"`{ast.unparse(c)[:60]}` strips a *set of bytes*, not the separator sequence: with a multi-byte separator trailing bytes of the payload that happen to be in the set are removed (sent 'abc\\n' with CRLF, received 'abc')")
+            # the accepted idiom: endswith / removesuffix with the separator
+    uses = sum(1 for ci in eng.db.classes.values() if ci.module.name.startswith("easynetwork.serializers") for fn in ci.methods.values() if not isinstance(fn.node, ast.Lambda)
+               for c in own_nodes(fn.node) if isinstance(c, ast.Call) and isinstance(c.func, ast.Attribute) and c.func.attr in ("removesuffix", "endswith") and c.args and "separator" in ast.unparse(c.args[0]).lower())
+    run.ob("C05.sep", "serializers:separator-handled-as-a-suffix", n == 0, suffix_operations=uses, strip_family_uses=n)
+    run.floor("C05.sep separator suffix operations", uses, 3)
+
+
 def run(eng, run):
     run.not_decided += NOT_DECIDED
+    check_drop(eng, run)
+    check_sep(eng, run)
     check_pure(eng, run)
     check_card(eng, run)
     check_oneshot(eng, run)
@@ -351,4 +418,13 @@ BENIGN = [
     Variant("receiver-rename-local", _AR, lambda fn: rename_local(fn, "datagram", "dgram"), why="local renamed"),
     Variant("sender-del-reordered", _SS, lambda fn: rename_local(fn, "exc", "error"), why="handler variable renamed"),
     Variant("oneshot-rename-remaining", _ABC, lambda fn: rename_local(fn, "remaining", "rest"), why="local renamed"),
+]
+
+MUTANTS += [
+    Variant("line-rstrip-separator", "serializers.line:StringLineSerializer.deserialize",
+            lambda fn: replace_stmt(fn, stmt_is("if not self.__keep_end"), "if not self.__keep_end:\n    data = data.rstrip(self.__separator)"), "C05.sep",
+            why="CRLF separator: a payload ending in a lone \\n or \\r loses it"),
+    Variant("endpoint-error-check-after-dequeue", "lowlevel.api_async.backend._asyncio.datagram.endpoint:DatagramEndpoint.recvfrom",
+            lambda fn: insert_after(fn, stmt_has("data_and_address = await self.__recv_queue.get()"), "self.__check_exceptions()"), "C05.drop",
+            why="a pending socket error swallows the datagram that was just dequeued"),
 ]
